@@ -71,11 +71,13 @@ func (p *packageParse) unpack(data []byte) (msgs []*Message, err error) {
 			return count == 2
 		})
 		if index == len(data)-1 {
+			// 消息要持有自己的数据 不能引用调用方会复用的读缓冲区
+			frame := bytes.Clone(data)
 			jtMsg := jt808.NewJTMessage()
-			if err := jtMsg.Decode(data); err != nil {
+			if err := jtMsg.Decode(frame); err != nil {
 				return nil, fmt.Errorf("%w [%x]", err, data)
 			}
-			msg := newTerminalMessage(jtMsg, data)
+			msg := newTerminalMessage(jtMsg, frame)
 			return []*Message{msg}, nil
 		}
 	}
@@ -93,7 +95,8 @@ func (p *packageParse) unpack(data []byte) (msgs []*Message, err error) {
 		if end == -1 {
 			break
 		}
-		originalData := p.historyData[:end]
+		// 消息要持有自己的数据 historyData后续会被截断和覆盖
+		originalData := bytes.Clone(p.historyData[:end])
 		jtMsg := jt808.NewJTMessage()
 		if err := jtMsg.Decode(originalData); err != nil {
 			p.historyData = p.historyData[end:]
